@@ -10,6 +10,7 @@ CONSTANTS
   CodeDen = {}
   Dims = 1
   Kinds <- KindsAll
+  HalfLimits = FALSE
   Uneven = "same"
 VIEW View
 ACTION_CONSTRAINT Emit
